@@ -16,6 +16,9 @@ Fixpoint ptree_eqb (a b : ptree) : bool :=
   | PCut, PCut => true
   | PErr, PErr => true
   | PColl x, PColl y => ptree_eqb x y
+  | PArr x, PArr y => ptree_eqb x y
+  | PMap x, PMap y => ptree_eqb x y
+  | PUser u fs, PUser u' fs' => String.eqb u u' && pflds_eqb fs fs'
   | PObj t v fs rq, PObj t' v' fs' rq' =>
     String.eqb t t' && String.eqb v v' && pflds_eqb fs fs' && names_eqb rq rq'
   | _, _ => false
@@ -62,7 +65,7 @@ Definition proj_ok (e : env) (k : nat) (it : proj_item) : bool :=
   match it with
   | (c, t, v, o) =>
     match iproject (fuel_bound e) e t v, o with
-    | Ok tr, Some p => ptree_eqb (wrapc c (unfold k tr tr)) p
+    | Ok tr, Some p => ptree_eqb (wrapw (if c then WColl else WNone) (unfold k tr tr)) p
     | Err, None => true
     | _, _ => false
     end
@@ -73,7 +76,7 @@ Definition proj_mismatches (cs : list (N * env * nat * list proj_item)) : list N
 
 (* ---- tier B: generated server and client vs server_respond / client_decode ---- *)
 
-Inductive cobs := OOk (x : val) | OErr | ONoResp.
+Inductive cobs := OOk (x : val) | OErr | OPanic | ONoResp.
 
 Record exch := mkExch {
   x_coll : bool; x_type : name; x_fixed : option name; x_chosen : name; x_val : val;
@@ -89,6 +92,7 @@ Definition exch_ok (e : env) (x : exch) : bool :=
     match client_decode e (x_type x) (x_fixed x) h' b', x_client x with
     | COk y, OOk y' => val_eqb y y'
     | CErr, OErr => true
+    | CPanic, OPanic => true
     | _, _ => false
     end
   | _, _ => false
